@@ -370,6 +370,7 @@ func localityFromProxyLabels(proxy *model.Proxy) *core.Locality {
 // initProxyMetadata.
 func (s *DiscoveryServer) initializeProxy(con *Connection) error {
 	proxy := con.proxy
+	verifGate("ads.initializeProxy.start")
 	// this should be done before we look for service instances, but after we load metadata
 	// TODO fix check in kubecontroller treat echo VMs like there isn't a pod
 	if err := s.WorkloadEntryController.OnConnect(con); err != nil {
